@@ -36,6 +36,14 @@ func verifC18(mk func() verifC18Msg) {
 		return
 	}
 	verifReach("both accepted")
+	if t1, ok := o1.(*transaction.Transaction); ok {
+		// BigIntCaster.Equal(a, b) dereferences b when a is set and b is not (a.Cmp(nil) panics): a decoded
+		// transaction without the value field cannot be compared with one that has it - different content anyway
+		if (t1.Value == nil) != (o2.(*transaction.Transaction).Value == nil) {
+			verifReach("different content")
+			return
+		}
+	}
 	if !o1.Equal(o2) {
 		verifReach("different content")
 		return
